@@ -39,8 +39,11 @@ type Case struct {
 	Repeater bool   `json:"repeater"`
 	Dwell    int    `json:"dwell"`
 	Ops      []Op   `json:"ops"`
-	Device   []int  `json:"device"` // channels currently enabled on the device, any order, no duplicates
-	Pat      string `json:"pat"`    // label of the device pattern (statistics only)
+	// Probe: the network also asks the band for its enabled set and for a plan after every step of the history (as a
+	// server that re-plans on every change does), not only at the end
+	Probe  bool   `json:"probe,omitempty"`
+	Device []int  `json:"device"` // channels currently enabled on the device, any order, no duplicates
+	Pat    string `json:"pat"`    // label of the device pattern (statistics only)
 }
 
 var allBands = []string{"EU868", "US915", "CN779", "EU433", "AU915", "CN470", "AS923", "AS923-2", "AS923-3", "AS923-4", "KR920", "IN865", "RU864", "ISM2400"}
@@ -83,6 +86,10 @@ func replayHistory(c Case) (band.Band, []chState, *evid.Outcome) {
 		st[i].enabled = true
 	}
 	dyn := planKind(c.Band) == "dyn"
+	if c.Probe {
+		_ = b.GetEnabledUplinkChannelIndices()
+		_ = b.GetLinkADRReqPayloadsForEnabledUplinkChannelIndices([]int{0, 1, 2})
+	}
 	for k, op := range c.Ops {
 		switch op.Op {
 		case "add":
@@ -126,6 +133,11 @@ func replayHistory(c Case) (band.Band, []chState, *evid.Outcome) {
 			}
 		default:
 			return nil, nil, skip
+		}
+		if c.Probe {
+			_ = b.GetEnabledUplinkChannelIndices()
+			_ = b.GetLinkADRReqPayloadsForEnabledUplinkChannelIndices([]int{0, 1, 2})
+			_ = b.GetCFList("1.0.3")
 		}
 	}
 	// the band's own flags must be the ones the history implies (this is C15's subject; here it
@@ -603,7 +615,7 @@ func genCase(t *rapid.T) Case {
 	default:
 		name = rapid.SampledFrom(dynBands).Draw(t, "band")
 	}
-	c := Case{Band: name, Repeater: rapid.Bool().Draw(t, "repeater"), Dwell: rapid.IntRange(0, 1).Draw(t, "dwell")}
+	c := Case{Band: name, Repeater: rapid.Bool().Draw(t, "repeater"), Dwell: rapid.IntRange(0, 1).Draw(t, "dwell"), Probe: rapid.Bool().Draw(t, "probe")}
 	ops, st := genHistory(t, name)
 	c.Ops = ops
 	c.Device, c.Pat = genDevice(t, name, st)
@@ -760,7 +772,7 @@ func TestProp(t *testing.T) {
 							}
 						}
 						dev := bitsToList([]byte{byte(v), byte(v >> 8)}, 16)
-						emit(Case{Band: name, Ops: h, Device: orderVariant(dev, v), Pat: fmt.Sprintf("sweep-h%d", hi)})
+						emit(Case{Band: name, Ops: h, Device: orderVariant(dev, v), Pat: fmt.Sprintf("sweep-h%d", hi), Probe: v%2 == 1})
 					}
 				}
 			}
@@ -775,7 +787,7 @@ func TestProp(t *testing.T) {
 				for _, net := range ps {
 					h := historyFor(defaultChannels[name], net.set)
 					for k, dev := range ps {
-						emit(Case{Band: name, Repeater: k%2 == 1, Ops: h, Device: orderVariant(dev.set, k), Pat: "grid"})
+						emit(Case{Band: name, Repeater: k%2 == 1, Ops: h, Device: orderVariant(dev.set, k), Pat: "grid", Probe: k%4 >= 2})
 					}
 				}
 			}
